@@ -6,8 +6,11 @@ package main
 
 import (
 	"fmt"
+	"go/token"
 	"go/types"
+	"os"
 	"reflect"
+	"sort"
 	"strings"
 
 	"golang.org/x/tools/go/ssa"
@@ -180,6 +183,47 @@ func (e *cpEngine) evalLookup(fr *cpFrame, x *ssa.Lookup) cpVal {
 		return e.fresh("strindex")
 	}
 	mt, _ := x.X.Type().Underlying().(*types.Map)
+	if mo, ok := m.(cpMap); ok && !mo.O.Unknown && mt != nil && e.forkLookups {
+		// a small table with string keys looked up under a key the fold does not know: one outcome per entry,
+		// each recorded as the comparison key == K that a switch over the names would have made, and one for
+		// "not there"
+		if ku, isU := kv.(cpUnk); isU && len(mo.O.M) > 0 && len(mo.O.M) <= 8 && ku.Deps == "" {
+			var keys []string
+			allStr := true
+			for k, ent := range mo.O.M {
+				if _, isS := ent.K.(cpStr); !isS {
+					allStr = false
+				}
+				keys = append(keys, k)
+			}
+			if allStr {
+				sort.Strings(keys)
+				for _, k := range keys {
+					ent := mo.O.M[k]
+					ks := ent.K.(cpStr)
+					cond := cpUnk{ID: "cmp:" + ku.ID + "==" + ks.V}
+					if e.trackAtoms {
+						if e.atomInfo == nil {
+							e.atomInfo = map[string]cpAtom{}
+						}
+						if _, dup := e.atomInfo[cond.ID]; !dup {
+							e.atomInfo[cond.ID] = cpAtom{ID: cond.ID, X: ku, Y: ks, Op: token.EQL, Known: true}
+						}
+					}
+					if e.decide(cond) {
+						if x.CommaOk {
+							return cpTuple{Vs: []cpVal{cpValueCopy(ent.V), cpBool{true}}}
+						}
+						return cpValueCopy(ent.V)
+					}
+				}
+				if x.CommaOk {
+					return cpTuple{Vs: []cpVal{e.zero(mt.Elem()), cpBool{false}}}
+				}
+				return e.zero(mt.Elem())
+			}
+		}
+	}
 	if mo, ok := m.(cpMap); ok && !mo.O.Unknown && mt != nil {
 		if k, ok := cpKey(kv); ok {
 			if ent, found := mo.O.M[k]; found {
@@ -206,6 +250,9 @@ func (e *cpEngine) evalLookup(fr *cpFrame, x *ssa.Lookup) cpVal {
 			return cpTuple{Vs: []cpVal{e.zero(mt.Elem()), cpBool{false}}}
 		}
 		return e.zero(mt.Elem())
+	}
+	if os.Getenv("AVROCHECK_SMALLFOLD") != "" {
+		fmt.Fprintf(os.Stderr, "  lookup unanswered: map=%T %.80v key=%T %v at %s\n", m, m, kv, kv, e.P.pos(x.Pos()))
 	}
 	// a lookup the fold cannot answer: recorded, so that rules can see which map was consulted with which key
 	res := e.resultOf(fr, x, "lookup")
